@@ -309,3 +309,388 @@ Proof.
       * rewrite Hs. simpl. eauto.
     + rewrite Hbs. simpl. eauto.
 Qed.
+
+Lemma Forall2_impl' {A B} (R1 R2 : A -> B -> Prop) l l' :
+  (forall a b, R1 a b -> R2 a b) -> Forall2 R1 l l' -> Forall2 R2 l l'.
+Proof. intros H. induction 1; constructor; auto. Qed.
+
+Theorem descr_total g v : wf g -> v < llen g -> exists s, descr g v = Some s.
+Proof.
+  intros W Hv. apply descr_fuel_total; auto.
+  - constructor.
+  - intros u [].
+  - simpl. lia.
+Qed.
+
+(* more fuel never changes a result *)
+Lemma descr_fuel_mono1 g k : forall vis v s,
+  descr_fuel g k vis v = Some s -> descr_fuel g (S k) vis v = Some s.
+Proof.
+  induction k as [|k IH]; intros vis v s H; [discriminate|].
+  rewrite descr_fuel_S in H. rewrite descr_fuel_S.
+  destruct (nth_error g v) as [nd|]; auto.
+  destruct (mem v vis); auto.
+  destruct (is_nil (n_parents nd)); auto.
+  destruct (map_opt (item g k (vis ++ [v])) (n_parents nd)) as [its|] eqn:E; [|discriminate].
+  assert (E' : map_opt (item g (S k) (vis ++ [v])) (n_parents nd) = Some its).
+  { apply Forall2_map_opt. apply map_opt_Some in E.
+    eapply Forall2_impl'; [|exact E]. intros p b Hb. unfold item in *.
+    destruct (descr_fuel g k (vis ++ [v]) p) eqn:Ed; [|discriminate].
+    rewrite (IH _ _ _ Ed). exact Hb. }
+  rewrite E'. exact H.
+Qed.
+
+Lemma descr_fuel_mono g k k' vis v s :
+  k <= k' -> descr_fuel g k vis v = Some s -> descr_fuel g k' vis v = Some s.
+Proof. induction 1; auto. intros H0. apply descr_fuel_mono1. auto. Qed.
+
+(* ==================================================================================== *)
+(* 5. graph level                                                                        *)
+(* ==================================================================================== *)
+
+Lemma NoDup_map_inj_on (f : nat -> nat) l :
+  NoDup l -> (forall u v, In u l -> In v l -> f u = f v -> u = v) -> NoDup (map f l).
+Proof.
+  induction 1 as [|a l Ha ND IH]; simpl; intros Inj; constructor.
+  - intros Hin. apply in_map_iff in Hin. destruct Hin as [u [E Hu]].
+    apply Inj in E; auto. subst. auto.
+  - apply IH. intros; apply Inj; auto.
+Qed.
+
+Lemma iso_image_nodup g g' f : iso g g' f -> NoDup (map f (seq 0 (llen g))).
+Proof.
+  intros I. apply NoDup_map_inj_on; [apply seq_NoDup|].
+  intros u v Hu Hv. apply in_seq in Hu, Hv. apply (iso_inj _ _ _ I); lia.
+Qed.
+
+Lemma iso_surj g g' f : iso g g' f ->
+  forall v', v' < llen g' -> exists v, v < llen g /\ f v = v'.
+Proof.
+  intros I v' Hv'.
+  assert (Hincl : incl (seq 0 (llen g')) (map f (seq 0 (llen g)))).
+  { apply NoDup_length_incl.
+    - eapply iso_image_nodup; eauto.
+    - rewrite map_length, !seq_length, (iso_len _ _ _ I). auto.
+    - intros x Hx. apply in_map_iff in Hx. destruct Hx as [u [E Hu]]. subst.
+      apply in_seq in Hu. apply in_seq. pose proof (iso_ran _ _ _ I u). lia. }
+  assert (Hin : In v' (seq 0 (llen g'))) by (apply in_seq; lia).
+  apply Hincl, in_map_iff in Hin. destruct Hin as [v [E Hv]].
+  apply in_seq in Hv. exists v. split; [lia|auto].
+Qed.
+
+Lemma has_child_spec g v :
+  has_child g v = true <-> exists u nd, nth_error g u = Some nd /\ In v (n_parents nd).
+Proof.
+  unfold has_child. rewrite existsb_exists. split.
+  - intros [nd [Hin Hm]]. apply In_nth_error in Hin. destruct Hin as [u Hu].
+    exists u, nd. split; auto. apply mem_In. exact Hm.
+  - intros [u [nd [Hu Hin]]]. exists nd. split; [eapply nth_error_In; eauto|apply mem_In; auto].
+Qed.
+
+Lemma has_child_iso g g' f : iso g g' f -> wf g ->
+  forall v, v < llen g -> has_child g' (f v) = has_child g v.
+Proof.
+  intros I W v Hv.
+  destruct (has_child g v) eqn:E.
+  - apply has_child_spec in E. destruct E as [u [nd [Hu Hin]]].
+    apply has_child_spec. destruct (iso_node _ _ _ I u nd Hu) as [nd' [Hu' [_ Hp]]].
+    exists (f u), nd'. split; auto.
+    eapply Permutation_in; [apply Permutation_sym; exact Hp|]. apply in_map. exact Hin.
+  - destruct (has_child g' (f v)) eqn:E'; auto.
+    apply has_child_spec in E'. destruct E' as [u' [nd' [Hu' Hin']]].
+    assert (Hlt : u' < llen g') by (apply nth_error_Some; congruence).
+    destruct (iso_surj _ _ _ I u' Hlt) as [u [Hu Efu]]. subst u'.
+    destruct (nth_error g u) as [nd|] eqn:En.
+    2:{ apply nth_error_None in En. lia. }
+    destruct (iso_node _ _ _ I u nd En) as [nd'' [Hu'' [_ Hp]]].
+    rewrite Hu' in Hu''. inversion Hu''; subst nd''.
+    eapply Permutation_in in Hin'; [|exact Hp].
+    apply in_map_iff in Hin'. destruct Hin' as [p [Efp Hp']].
+    apply (iso_inj _ _ _ I) in Efp; auto; [|eapply W; eauto]. subst p.
+    assert (has_child g v = true) by (apply has_child_spec; eauto). congruence.
+Qed.
+
+Lemma filter_map_comm {A B} (f : A -> B) (p : A -> bool) (q : B -> bool) l :
+  (forall a, In a l -> q (f a) = p a) -> map f (filter p l) = filter q (map f l).
+Proof.
+  induction l as [|a l IH]; simpl; intros H; auto.
+  rewrite (H a); auto. destruct (p a); simpl; rewrite IH; auto.
+Qed.
+
+Lemma Permutation_filter' {A} (p : A -> bool) l l' :
+  Permutation l l' -> Permutation (filter p l) (filter p l').
+Proof.
+  induction 1; simpl; auto.
+  - destruct (p x); auto.
+  - destruct (p x), (p y); auto. apply perm_swap.
+  - eapply perm_trans; eauto.
+Qed.
+
+Lemma sinks_lt g v : In v (sinks g) -> v < llen g.
+Proof. unfold sinks. rewrite filter_In, in_seq. lia. Qed.
+
+Lemma sinks_iso g g' f : iso g g' f -> wf g -> Permutation (sinks g') (map f (sinks g)).
+Proof.
+  intros I W. unfold sinks. rewrite <- (iso_len _ _ _ I).
+  rewrite (filter_map_comm f _ (fun v => negb (has_child g' v))).
+  2:{ intros v Hv. apply in_seq in Hv. rewrite (has_child_iso g g' f I W); auto. lia. }
+  apply Permutation_filter'.
+  apply NoDup_Permutation; [apply seq_NoDup|eapply iso_image_nodup; eauto|].
+  intros x. rewrite in_seq, in_map_iff. split.
+  - intros Hx. destruct (iso_surj _ _ _ I x) as [v [Hv E]]; [rewrite <- (iso_len _ _ _ I); lia|].
+    exists v. split; auto. apply in_seq. lia.
+  - intros [v [E Hv]]. apply in_seq in Hv. subst x.
+    pose proof (iso_ran _ _ _ I v). rewrite (iso_len _ _ _ I). lia.
+Qed.
+
+Lemma sink_ids_total g : wf g -> exists a, sink_ids g = Some a.
+Proof.
+  intros W. apply map_opt_total. intros v Hv. apply descr_total; auto. apply sinks_lt; auto.
+Qed.
+
+Lemma sink_ids_iso g g' f : iso g g' f -> wf g ->
+  exists a b, sink_ids g = Some a /\ sink_ids g' = Some b /\ Permutation a b.
+Proof.
+  intros I W. destruct (sink_ids_total g W) as [a Ha]. exists a.
+  assert (E : map_opt (descr g') (map f (sinks g)) = Some a).
+  { rewrite map_opt_map. rewrite <- Ha. unfold sink_ids. apply map_opt_ext.
+    intros v Hv. symmetry. apply descr_iso; auto. apply sinks_lt; auto. }
+  pose proof (map_opt_perm (descr g') _ _ (sinks_iso g g' f I W)) as P.
+  rewrite E in P. unfold sink_ids.
+  destruct (map_opt (descr g') (sinks g')) as [b|]; [|tauto].
+  exists b. repeat split; auto. apply Permutation_sym; auto.
+Qed.
+
+Lemma incl_b_spec l r : incl_b l r = true <-> incl l r.
+Proof.
+  unfold incl_b. rewrite forallb_forall. split; intros H s Hs.
+  - apply H in Hs. apply existsb_exists in Hs. destruct Hs as [x [Hx E]].
+    apply String.eqb_eq in E. subst. auto.
+  - apply existsb_exists. exists s. split; auto. apply String.eqb_refl.
+Qed.
+
+Lemma set_eq_b_spec a b : set_eq_b a b = true <-> (forall s, In s a <-> In s b).
+Proof.
+  unfold set_eq_b. rewrite andb_true_iff, !incl_b_spec. unfold incl. firstorder.
+Qed.
+
+(* T1.2 *)
+Theorem graph_eq_iso g g' f : iso g g' f -> wf g -> graph_eq g g' = Some true.
+Proof.
+  intros I W. destruct (sink_ids_iso g g' f I W) as [a [b [Ha [Hb P]]]].
+  unfold graph_eq, graph_eq_ids. rewrite Ha, Hb. f_equal. apply set_eq_b_spec.
+  intros s. split; apply Permutation_in; auto. apply Permutation_sym; auto.
+Qed.
+
+Lemma sinks_nil : sinks [] = [].
+Proof. reflexivity. Qed.
+
+Theorem graph_id_iso g g' f : iso g g' f -> wf g -> (sinks g <> [] \/ g = []) ->
+  graph_id g = graph_id g'.
+Proof.
+  intros I W H.
+  destruct g as [|nd g0].
+  - pose proof (iso_len _ _ _ I) as L. destruct g'; [reflexivity|discriminate].
+  - destruct H as [H|H]; [|discriminate].
+    pose proof (iso_len _ _ _ I) as L. destruct g' as [|nd' g0']; [discriminate|].
+    destruct (sink_ids_iso _ _ f I W) as [a [b [Ha [Hb P]]]].
+    pose proof (sinks_iso _ _ f I W) as PS.
+    unfold graph_id. rewrite Ha, Hb.
+    destruct (sinks (nd :: g0)) eqn:Es; [congruence|].
+    destruct (sinks (nd' :: g0')) eqn:Es'.
+    + apply Permutation_nil in PS. discriminate.
+    + simpl. rewrite (sort_perm _ _ P). reflexivity.
+Qed.
+
+(* acyclicity: a topological rank exists *)
+Definition dag (g : dg) : Prop :=
+  exists rank : nat -> nat,
+    forall v nd p, nth_error g v = Some nd -> In p (n_parents nd) -> rank p < rank v.
+
+Lemma argmax (rank : nat -> nat) n : 0 < n -> exists v, v < n /\ forall u, u < n -> rank u <= rank v.
+Proof.
+  induction n as [|n IH]; [lia|]. intros _.
+  destruct n as [|n].
+  - exists 0. split; [lia|]. intros u Hu. replace u with 0 by lia. auto.
+  - destruct IH as [v [Hv Hm]]; [lia|].
+    destruct (le_lt_dec (rank (S n)) (rank v)).
+    + exists v. split; [lia|]. intros u Hu. destruct (Nat.eq_dec u (S n)); [subst; auto|apply Hm; lia].
+    + exists (S n). split; [lia|]. intros u Hu.
+      destruct (Nat.eq_dec u (S n)); [subst; auto|]. specialize (Hm u). lia.
+Qed.
+
+(* a non-empty acyclic graph has a node without children *)
+Lemma dag_has_sink g : dag g -> g <> [] -> sinks g <> [].
+Proof.
+  intros [rank R] Hne.
+  destruct (argmax rank (llen g)) as [v [Hv Hm]].
+  { destruct g; [congruence|simpl; lia]. }
+  assert (Hin : In v (sinks g)).
+  { unfold sinks. apply filter_In. split; [apply in_seq; lia|].
+    destruct (has_child g v) eqn:E; auto.
+    apply has_child_spec in E. destruct E as [u [nd [Hu Hp]]].
+    assert (u < llen g) by (apply nth_error_Some; congruence).
+    specialize (R u nd v Hu Hp). specialize (Hm u). lia. }
+  intros E. rewrite E in Hin. destruct Hin.
+Qed.
+
+Theorem graph_id_iso_dag g g' f : iso g g' f -> wf g -> dag g -> graph_id g = graph_id g'.
+Proof.
+  intros I W D. apply (graph_id_iso g g' f I W).
+  destruct g; [right; reflexivity|left]. apply dag_has_sink; auto. discriminate.
+Qed.
+
+(* T1.3 *)
+Theorem graph_eq_refl g : wf g -> graph_eq g g = Some true.
+Proof.
+  intros W. destruct (sink_ids_total g W) as [a Ha]. unfold graph_eq, graph_eq_ids. rewrite Ha.
+  f_equal. apply set_eq_b_spec. tauto.
+Qed.
+
+Theorem graph_eq_sym g1 g2 : graph_eq g1 g2 = graph_eq g2 g1.
+Proof.
+  unfold graph_eq, graph_eq_ids. destruct (sink_ids g1), (sink_ids g2); auto.
+  unfold set_eq_b. rewrite andb_comm. reflexivity.
+Qed.
+
+Theorem graph_eq_trans g1 g2 g3 :
+  graph_eq g1 g2 = Some true -> graph_eq g2 g3 = Some true -> graph_eq g1 g3 = Some true.
+Proof.
+  unfold graph_eq, graph_eq_ids. destruct (sink_ids g1), (sink_ids g2), (sink_ids g3); try discriminate.
+  intros H1 H2. injection H1 as E1. injection H2 as E2. f_equal.
+  rewrite set_eq_b_spec in *. intros s. rewrite E1. apply E2.
+Qed.
+
+(* graph_eq g1 g2 = Some true means exactly: the root nodes carry the same set of ids *)
+Theorem graph_eq_spec g1 g2 :
+  graph_eq g1 g2 = Some true <->
+  exists a b, sink_ids g1 = Some a /\ sink_ids g2 = Some b /\ (forall s, In s a <-> In s b).
+Proof.
+  unfold graph_eq, graph_eq_ids. split.
+  - destruct (sink_ids g1) as [a|], (sink_ids g2) as [b|]; try discriminate.
+    intros H. injection H as E. rewrite set_eq_b_spec in E. exists a, b. repeat split; auto; apply E.
+  - intros [a [b [Ha [Hb H]]]]. rewrite Ha, Hb. f_equal. apply set_eq_b_spec. auto.
+Qed.
+
+(* deepcopy: fresh node objects carrying the same fields (uid included), linked the same
+   way and listed in the same order.  In the index representation the copy is described by
+   a field-wise equal list. *)
+Definition same_fields (a b : node) : Prop :=
+  n_uid a = n_uid b /\ n_name a = n_name b /\ n_params a = n_params b /\ n_parents a = n_parents b.
+
+Definition deep_copy (g g' : dg) : Prop := Forall2 same_fields g g'.
+
+Lemma deep_copy_eq g g' : deep_copy g g' -> g = g'.
+Proof.
+  induction 1 as [|a b l l' [H1 [H2 [H3 H4]]] _ IH]; auto.
+  destruct a, b; simpl in *; subst. reflexivity.
+Qed.
+
+Theorem deepcopy_eq g g' : wf g -> deep_copy g g' ->
+  graph_eq g g' = Some true /\ graph_eq g' g = Some true /\ graph_id g' = graph_id g /\
+  forall v, descr g' v = descr g v.
+Proof.
+  intros W C. apply deep_copy_eq in C. subst g'.
+  repeat split; auto using graph_eq_refl.
+Qed.
+
+(* ==================================================================================== *)
+(* 6. the executable isomorphism test of the correspondence check is sound               *)
+(* ==================================================================================== *)
+
+Lemma remove1_perm x l r : remove1 x l = Some r -> Permutation l (x :: r).
+Proof.
+  revert r. induction l as [|y l IH]; simpl; intros r H; [discriminate|].
+  destruct (Nat.eqb x y) eqn:E.
+  - apply Nat.eqb_eq in E. inversion H; subst. auto.
+  - destruct (remove1 x l) as [r'|]; [|discriminate]. inversion H; subst.
+    rewrite (IH r' eq_refl). apply perm_swap.
+Qed.
+
+Lemma perm_b_sound l r : perm_b l r = true -> Permutation l r.
+Proof.
+  revert r. induction l as [|x l IH]; simpl; intros r H.
+  - destruct r; [auto|discriminate].
+  - destruct (remove1 x r) as [r'|] eqn:E; [|discriminate].
+    apply remove1_perm in E. rewrite E. constructor. auto.
+Qed.
+
+Lemma nodup_b_sound l : nodup_b l = true -> NoDup l.
+Proof.
+  induction l as [|x l IH]; simpl; intros H; constructor; apply andb_true_iff in H; destruct H as [H1 H2]; auto.
+  intros Hin. apply mem_In in Hin. rewrite Hin in H1. discriminate.
+Qed.
+
+Lemma wf_b_spec g : wf_b g = true <-> wf g.
+Proof.
+  unfold wf_b, wf. rewrite forallb_forall. split.
+  - intros H v nd p Hv Hp. apply nth_error_In in Hv. apply H in Hv.
+    rewrite forallb_forall in Hv. apply Hv in Hp. apply Nat.ltb_lt in Hp. exact Hp.
+  - intros H nd Hin. apply forallb_forall. intros p Hp. apply Nat.ltb_lt.
+    apply In_nth_error in Hin. destruct Hin as [v Hv]. eapply H; eauto.
+Qed.
+
+Theorem iso_b_sound g g' fl : iso_b g g' fl = true -> iso g g' (ap fl) /\ wf g /\ wf g'.
+Proof.
+  unfold iso_b. rewrite !andb_true_iff.
+  intros [[[[[[H1 H2] H3] H4] H5] H6] H7].
+  apply Nat.eqb_eq in H1, H2. apply nodup_b_sound in H4.
+  apply wf_b_spec in H5, H6. rewrite forallb_forall in H3, H7.
+  split; [|split]; auto.
+  constructor; auto.
+  - intros v Hv. apply Nat.ltb_lt. apply H3. apply nth_In. lia.
+  - intros u v Hu Hv E. unfold ap in E.
+    rewrite (NoDup_nth fl 0) in H4. apply (H4 u v); auto; lia.
+  - intros v nd Hv.
+    assert (Hlt : v < llen g) by (apply nth_error_Some; congruence).
+    specialize (H7 v). rewrite Hv in H7.
+    destruct (nth_error g' (ap fl v)) as [nd'|]; [|discriminate H7; apply in_seq; lia].
+    exists nd'. assert (Hin : In v (seq 0 (llen g))) by (apply in_seq; lia).
+    apply H7 in Hin. apply andb_true_iff in Hin. destruct Hin as [Hl Hp].
+    apply String.eqb_eq in Hl. apply perm_b_sound in Hp. auto.
+Qed.
+
+(* description() depends only on name and params when the name is not empty; so a
+   renaming that preserves names and params (and arbitrary uids) preserves the label *)
+Lemma label_name_params a b :
+  n_name a = n_name b -> n_params a = n_params b -> n_name a <> "" -> label a = label b.
+Proof.
+  intros Hn Hp Hne. unfold label. rewrite <- Hn, <- Hp.
+  destruct (String.eqb_spec (n_name a) ""); [contradiction|reflexivity].
+Qed.
+
+(* the same with fresh identities made explicit: uids are unconstrained *)
+Record iso_np (g g' : dg) (f : nat -> nat) : Prop := {
+  np_len : llen g = llen g';
+  np_ran : forall v, v < llen g -> f v < llen g';
+  np_inj : forall u v, u < llen g -> v < llen g -> f u = f v -> u = v;
+  np_node : forall v nd, nth_error g v = Some nd ->
+      n_name nd <> "" /\
+      exists nd', nth_error g' (f v) = Some nd' /\ n_name nd' = n_name nd /\
+                  n_params nd' = n_params nd /\
+                  Permutation (n_parents nd') (map f (n_parents nd)) }.
+
+Lemma iso_np_iso g g' f : iso_np g g' f -> iso g g' f.
+Proof.
+  intros [L R J N]. constructor; auto.
+  intros v nd Hv. destruct (N v nd Hv) as [Hne [nd' [Hv' [Hn [Hp Hperm]]]]].
+  exists nd'. repeat split; auto. symmetry. apply label_name_params; auto.
+Qed.
+
+(* a graph without a root node (every node lies on or feeds a cycle) gets the id of the
+   node with the least uid: that is NOT invariant under fresh identities *)
+Definition cyc1 : dg := [mk_node "u0" "x" "" [1]; mk_node "u1" "y" "" [0]].
+Definition cyc2 : dg := [mk_node "u1" "x" "" [1]; mk_node "u0" "y" "" [0]].
+
+Lemma graph_id_sinkless_depends_on_uid :
+  iso_np cyc1 cyc2 (fun v => v) /\ graph_eq cyc1 cyc2 = Some true /\ graph_id cyc1 <> graph_id cyc2.
+Proof.
+  split; [|split].
+  - constructor; auto.
+    intros v nd Hv. destruct v as [|[|v]]; simpl in Hv; inversion Hv; subst; simpl.
+    + split; [discriminate|]. eexists; repeat split; simpl; auto.
+    + split; [discriminate|]. eexists; repeat split; simpl; auto.
+    + destruct v; discriminate.
+  - reflexivity.
+  - vm_compute. discriminate.
+Qed.
